@@ -15,7 +15,7 @@ props="$*"; [ "$props" = ALL ] && props=$(seq -f 'C%02g' 1 20 | tr '\n' ' ')
 export BIN V S
 unchanged() {
   mkdir -p $S/u/home; cp $V/known_findings.json $S/u/home/
-  out=$(CTVERIF_HOME=$S/u/home $BIN checkall 2>&1)
+  out=$(CTVERIF_HOME=$S/u/home /verif/tools/throttle $BIN checkall 2>&1)
   n=$(echo "$out" | grep -c ' quick: .* 0 violations')
   if [ "$n" = 20 ]; then echo "unchanged: ok (20 checks, 0 violations)"; else echo "unchanged: BROKEN ($n of 20 clean)"; echo "$out" | grep -A1 '^VIOLATION' | grep rule= | cut -c1-260 | head -20; fi
 }
@@ -23,7 +23,7 @@ seed() {
   d=$1; s=$(basename $d); p=${s%-*}; w=$S/s-$s; mkdir -p $w/home $w/repo; cp $V/known_findings.json $w/home/
   rsync -a --exclude .git /repo/ $w/repo/
   if ! (cd $w/repo && patch -p1 -s < $d/patch.diff >/dev/null 2>&1); then echo "seed $s: PATCH DOES NOT APPLY"; rm -rf $w; return; fi
-  out=$(CTVERIF_REPO=$w/repo CTVERIF_HOME=$w/home $BIN check $p 2>&1)
+  out=$(CTVERIF_REPO=$w/repo CTVERIF_HOME=$w/home /verif/tools/throttle $BIN check $p 2>&1)
   if echo "$out" | grep -q '^VIOLATION'; then echo "seed $s: caught  $(echo "$out" | grep -m1 'rule=' | sed 's/.*key=\([^ ]*\) at.*/\1/' | cut -c1-140)"
   elif echo "$out" | grep -q 'obligations'; then echo "seed $s: MISSED"
   else echo "seed $s: CHECKER PROBLEM $(echo "$out" | head -1 | cut -c1-120)"; fi
@@ -33,7 +33,7 @@ ben() {
   pd=$1; id=$(basename $(dirname $(dirname $pd)))/$(basename $(dirname $pd))/$(basename $pd); w=$S/b-$(echo $id | tr / _); mkdir -p $w/home $w/repo; cp $V/known_findings.json $w/home/
   rsync -a --exclude .git /repo/ $w/repo/
   if ! (cd $w/repo && git init -q . 2>/dev/null; git -C $w/repo apply $pd/patch.diff 2>/dev/null); then echo "benign $id: PATCH DOES NOT APPLY"; rm -rf $w; return; fi
-  out=$(CTVERIF_REPO=$w/repo CTVERIF_HOME=$w/home $BIN checkall 2>&1)
+  out=$(CTVERIF_REPO=$w/repo CTVERIF_HOME=$w/home /verif/tools/throttle $BIN checkall 2>&1)
   if echo "$out" | grep -q '^VIOLATION'; then echo "benign $id: ALARM ($(echo "$out" | grep -c '^VIOLATION'))  $(echo "$out" | grep -A1 '^VIOLATION' | grep -m1 'rule=' | cut -c1-220)"
   elif [ "$(echo "$out" | grep -c ' quick: ')" != 20 ]; then echo "benign $id: CHECKER DID NOT COMPLETE"
   else echo "benign $id: silent"; fi
